@@ -47,6 +47,7 @@ func parseOne(src string, t *tally, bad *[]string) (ok bool) {
 		return false
 	}
 	t.n++
+	progress.Add(1)
 	cur.Store(&src)
 	setCur(src)
 	defer func() {
@@ -78,18 +79,35 @@ func guarded(t *tally, bad *[]string, f func()) {
 	}
 	done := make(chan struct{})
 	go func() { defer close(done); f() }()
-	select {
-	case <-done:
-	case <-time.After(30 * time.Second):
+	// the bound is on ONE definition, not on the batch: progress counts definitions started; no new definition for 30 s
+	// means the one in cur has not come back
+	last, since := progress.Load(), time.Now()
+	for {
+		select {
+		case <-done:
+			return
+		case <-time.After(2 * time.Second):
+		}
+		if p := progress.Load(); p != last {
+			last, since = p, time.Now()
+			continue
+		}
+		if time.Since(since) < 30*time.Second {
+			continue
+		}
 		t.hangs++
 		hung.Store(true)
 		s := ""
 		if p := cur.Load(); p != nil {
 			s = *p
 		}
-		*bad = append(*bad, fmt.Sprintf("hang parsing %q (no answer for 30 s; a parse of a string this short takes microseconds)", s))
+		*bad = append(*bad, fmt.Sprintf("hang on %q (no answer for 30 s; a definition this short takes microseconds to milliseconds)", s))
+		return
 	}
 }
+
+// progress counts the definitions started (parseOne, defineOne, lambdaOne): the watchdog's heartbeat
+var progress atomic.Int64
 
 // rune alphabet: whole characters of every UTF-8 width next to the bytes that switch lexer states
 var runeAlphabet = []string{"/", "\n", " ", "a", "'", "\"", "|", "(", "=", "-", "\\", "é", "→", "😀", "1", ")", ".", "~", "!", "\u0301"}
